@@ -387,6 +387,32 @@ def main(argv):  # noqa: C901
         nontriv = (n >= 2 and mixed) or any(0 in B.shape(x) or B.shape(x) == () for x in leaves)
         sink.cell(backend, 'mixed' if mixed else 'single', nil, ns or 'global')
         sink.case(harness.fp(backend, desc.short(), tuple(info), nil, ns), nontriv, ident if idx % 250 == 0 else None)
+    if backend == 'jax' and part == 0:
+        # the x64 switch toggled INSIDE one process: whatever tree_ravel remembers between calls must not carry a promotion over
+        enable_x64 = getattr(B.jax, 'enable_x64', None)
+        if enable_x64 is None:
+            from jax.experimental import enable_x64
+
+        jnp = B.jnp
+        rng = gen.case_rng(seed, 'c20:x64-toggle', 0)
+        for rep in range(12):
+            small = rng.choice(['int8', 'int16', 'int32'])
+            for flag in ((True, False, True) if rep % 2 else (False, True, False)):
+                with enable_x64(flag):
+                    t = {'a': jnp.asarray([3000000000, 1], dtype='uint32'), 'b': [jnp.asarray([[1, 2]], dtype=small), jnp.asarray(7, dtype='uint32')]}
+                    ident = dict(backend='jax', gen='c20:x64-toggle', rep=rep, x64=flag, small=small)
+                    try:
+                        flat, unravel = checked(t)
+                        back = unravel(flat)
+                        lv0, lv1 = optree.tree_leaves(t), optree.tree_leaves(back)
+                        ok = len(lv0) == len(lv1) and all(B.shape(a) == B.shape(b) and B.dtype_eq(B.dtype(a), B.dtype(b)) and bool(jnp.array_equal(a, b)) for a, b in zip(lv0, lv1))
+                        why = [str(B.dtype(flat))] + [str(B.dtype(x)) for x in lv1]
+                    except PostBroken:
+                        ok, why = False, ('post-condition', state.get('why'))
+                    except Exception as e:  # noqa: BLE001
+                        ok, why = False, repr(e)[:300]
+                    sink.check(ok, 'x64-toggle/jax', 'tree_ravel / unravel are mutually inverse under the x64 setting in force at the call, whatever was raveled before under the other setting', ident, why)
+                    sink.count('x64-toggles')
     for k, v in LAYOUTS.items():
         sink.count(f'leaf-layout:{backend}:{k}', v)
     sink.extra[f'contract:{backend}'] = state.get('contract')
